@@ -2,9 +2,9 @@ package main
 
 func init() {
 	plans["C04"] = Plan{Pkg: pkg("C04"), Steps: []Step{
-		{Run: "TestRoundTrip", Quick: 250000, Thorough: 4000000, QShards: 4, TShards: 16},
-		{Run: "TestEqual", Quick: 250000, Thorough: 4000000, QShards: 4, TShards: 16},
-		{Run: "TestExpandedNSU", Quick: 150000, Thorough: 2000000, QShards: 4, TShards: 16},
-		{Run: "TestRegistry", Quick: 150000, Thorough: 2000000, QShards: 4, TShards: 16},
+		{Run: "TestRoundTrip", Quick: 150000, Thorough: 4000000, QShards: 4, TShards: 16},
+		{Run: "TestEqual", Quick: 150000, Thorough: 4000000, QShards: 4, TShards: 16},
+		{Run: "TestExpandedNSU", Quick: 100000, Thorough: 2000000, QShards: 4, TShards: 16},
+		{Run: "TestRegistry", Quick: 100000, Thorough: 2000000, QShards: 4, TShards: 16},
 	}}
 }
